@@ -23,6 +23,8 @@ import (
 	"sync"
 
 	"google.golang.org/grpc"
+	"google.golang.org/grpc/metadata"
+	"google.golang.org/grpc/status"
 )
 
 type key int
@@ -77,6 +79,10 @@ func GCPStreamClientInterceptor(
 		opts:     opts,
 	}
 	cs.cond = sync.NewCond(cs)
+	cs.created = make(chan struct{})
+	if ctx.Done() != nil {
+		go cs.watchContext()
+	}
 	return cs, nil
 }
 
@@ -86,6 +92,8 @@ type gcpClientStream struct {
 
 	cond          *sync.Cond
 	initStreamErr error
+	// Closed once the underlying ClientStream is created; stops watchContext.
+	created chan struct{}
 
 	ctx      context.Context
 	desc     *grpc.StreamDesc
@@ -108,6 +116,7 @@ func (cs *gcpClientStream) SendMsg(m interface{}) error {
 			return err
 		}
 		cs.ClientStream = realCS
+		close(cs.created)
 	}
 	cs.Unlock()
 	cs.cond.Broadcast()
@@ -127,4 +136,67 @@ func (cs *gcpClientStream) RecvMsg(m interface{}) error {
 	}
 	cs.Unlock()
 	return cs.ClientStream.RecvMsg(m)
+}
+
+// watchContext wakes up the callers waiting for the first SendMsg (RecvMsg,
+// Header) when the call's context ends before the underlying ClientStream is
+// created, so that they do not wait forever.
+func (cs *gcpClientStream) watchContext() {
+	select {
+	case <-cs.created:
+	case <-cs.ctx.Done():
+		cs.Lock()
+		if cs.ClientStream == nil && cs.initStreamErr == nil {
+			cs.initStreamErr = status.FromContextError(cs.ctx.Err()).Err()
+		}
+		cs.Unlock()
+		cs.cond.Broadcast()
+	}
+}
+
+// stream returns the underlying ClientStream or nil if it is not created yet.
+func (cs *gcpClientStream) stream() grpc.ClientStream {
+	cs.Lock()
+	defer cs.Unlock()
+	return cs.ClientStream
+}
+
+// Header waits, like RecvMsg, until the underlying ClientStream is created by
+// the first SendMsg (or its creation failed, or the context ended).
+func (cs *gcpClientStream) Header() (metadata.MD, error) {
+	cs.Lock()
+	for cs.initStreamErr == nil && cs.ClientStream == nil {
+		cs.cond.Wait()
+	}
+	s, err := cs.ClientStream, cs.initStreamErr
+	cs.Unlock()
+	if s == nil {
+		return nil, err
+	}
+	return s.Header()
+}
+
+// Trailer returns nil until the underlying ClientStream is created.
+func (cs *gcpClientStream) Trailer() metadata.MD {
+	if s := cs.stream(); s != nil {
+		return s.Trailer()
+	}
+	return nil
+}
+
+// CloseSend is a no-op until the underlying ClientStream is created.
+func (cs *gcpClientStream) CloseSend() error {
+	if s := cs.stream(); s != nil {
+		return s.CloseSend()
+	}
+	return nil
+}
+
+// Context returns the context of the underlying ClientStream, or the caller's
+// context until it is created.
+func (cs *gcpClientStream) Context() context.Context {
+	if s := cs.stream(); s != nil {
+		return s.Context()
+	}
+	return cs.ctx
 }
